@@ -285,6 +285,11 @@ Proof.
   apply frame_G. eapply fsat_enter_propose; exact E.
 Qed.
 
+Lemma sat_enter_new_round_open h r : sat (enter_new_round_open h r).
+Proof.
+  intros n n' o. unfold enter_new_round_open. destruct (step n <? 8); [apply sat_enter_new_round|apply sat_ret].
+Qed.
+
 Lemma fsat_enter_prevote_wait h r : fsat (enter_prevote_wait h r).
 Proof.
   intros n n' o. unfold enter_prevote_wait. destruct (_ || _) eqn:Eg; [intro E; injection E as <- _; apply frame_refl|].
@@ -523,7 +528,7 @@ Proof.
   - (* prevote *)
     eapply G_trans; [apply (addvote_unlock_G n1 v)|].
     match goal with [ H : (if _ then _ else _) = Ok _ |- G ?m _ ] => set (n2 := m) in * end.
-    revert E1. destruct ((round n2 <=? v_round v) && any23 (hv_prevotes (votes n1) (v_round v))); intro E1.
+    revert E1. destruct (_ && any23_open _ _); intro E1.
     + apply bind_ok in E1 as (n3 & oa & ob & Ea1 & Ea2 & _).
       eapply G_trans; [eapply sat_enter_new_round; exact Ea1|].
       revert Ea2. destruct (maj23 (hv_prevotes (votes n3) (v_round v))); intro Ea2.
@@ -538,7 +543,7 @@ Proof.
   - revert E1. destruct (N.eqb (v_type v) 2); [|discriminate].
     destruct (maj23 (hv_precommits (votes n1) (v_round v))) as [b|].
     + destruct (b_hash b); intro E1.
-      * eapply sat_enter_new_round; exact E1.
+      * eapply sat_enter_new_round_open; exact E1.
       * apply bind_ok in E1 as (n4 & oa & ob & Ea1 & Ea2 & _).
         apply bind_ok in Ea1 as (n3 & oc & od & Eb1 & Eb2 & _).
         apply bind_ok in Eb1 as (n2 & oe & of & Ec1 & Ec2 & _).
@@ -546,7 +551,7 @@ Proof.
         eapply G_trans; [eapply sat_enter_precommit; exact Ec2|].
         eapply G_trans; [eapply sat_enter_commit; exact Eb2|].
         revert Ea2. destruct (c_skip_commit c && _); intro Ea2; [eapply sat_enter_new_round; exact Ea2|injection Ea2 as <- _; apply G_refl].
-    + destruct ((round n1 <=? v_round v) && any23 (hv_precommits (votes n1) (v_round v))); intro E1; [|injection E1 as <- _; apply G_refl].
+    + destruct (_ && any23_open _ _); intro E1; [|injection E1 as <- _; apply G_refl].
       apply bind_ok in E1 as (n3 & oa & ob & Ea1 & Ea2 & _).
       apply bind_ok in Ea1 as (n2 & oc & od & Eb1 & Eb2 & _).
       eapply G_trans; [eapply sat_enter_new_round; exact Eb1|].
